@@ -8,7 +8,7 @@ NAME=$(echo "$D" | tr '/' '_')
 WT=/tmp/try/$NAME
 rm -rf "$WT"; git -C /repo worktree prune
 git -C /repo worktree add -q --detach "$WT" HEAD || exit 2
-cleanup() { git -C /repo worktree remove --force "$WT" 2>/dev/null; rm -rf /tmp/try/out.$NAME; rm -f /verif/.bin/simcheck.$(printf '%s' "$WT" | cksum | cut -d' ' -f1)*; }
+cleanup() { git -C /repo worktree remove --force "$WT" 2>/dev/null; rm -rf /tmp/try/out.$NAME; rm -f $(dirname ${VERIF_RUNNER:-/verif/run.sh})/.bin/simcheck.$(printf '%s' "$WT" | cksum | cut -d' ' -f1)*; }
 trap cleanup EXIT
 DEMO=$(ls "$D"/*_test.go 2>/dev/null | head -1)
 if [ -n "$DEMO" ]; then
@@ -25,6 +25,6 @@ if [ -n "$DEMO" ]; then
 fi
 export VERIF_OUT=/tmp/try/out.$NAME; mkdir -p $VERIF_OUT
 for P in "$@"; do
-  VERIF_REPO="$WT" /verif/run.sh check "$P" --tier ${TIER:-quick} > /tmp/try/$NAME.$P.log 2>&1
+  VERIF_REPO="$WT" ${VERIF_RUNNER:-/verif/run.sh} check "$P" --tier ${TIER:-quick} > /tmp/try/$NAME.$P.log 2>&1
   echo "check $P: exit $? : $(grep -c '^VIOLATION' /tmp/try/$NAME.$P.log) VIOLATION lines; $(grep -m1 '^violation' /tmp/try/$NAME.$P.log | cut -c1-200)"
 done
